@@ -220,4 +220,51 @@ reg(
                                 "C15.op_linalg", "C15.op_index", "C15.nondifferentiable_intermediate", "C15.cond_data", "C15.cond_const"]},
     thorough={"shards": 16, "timeout_s": 3 * 3600, "n_cases": 600, "required_classes": ["C15.args_dict", "C15.op_cond", "C15.op_linalg"]},
 )
+
+reg(
+    "C14",
+    "Placements are ENUMERATED: a sampling core (dist.sample, gf.simulate, bare gf() call, sample_shape site, ADEV site) inside "
+    "every stack of wrappers of the stated depths over {jit, scan body, while_loop body, fori_loop body, cond, switch, grad, "
+    "value_and_grad, vmap, nested jit, checkpoint, custom_jvp, lax.map, modular_vmap}, with seed applied nowhere / outermost / "
+    "directly around the core. Each placement is built and called repeatedly (3 calls unseeded; 4 keys + a repeat seeded). "
+    "Non-trivial: depth >= 2 or a construct the Seed interpreter does not special-case. Distinct by construction.",
+    quick={"shards": 16, "timeout_s": 1200, "depths": [1, 2], "cores_deep": ["dist_sample", "gf_simulate"], "exhaustive": True,
+           "required_classes": ["C14.seed_none", "C14.seed_outer", "C14.seed_inner", "C14.depth_1", "C14.depth_2", "C14.outcome_lowering_error", "C14.outcome_value", "C14.outcome_vmap_error"]},
+    thorough={"shards": 16, "timeout_s": 3 * 3600, "depths": [1, 2], "cores_deep": ["dist_sample", "gf_simulate", "gf_call", "sample_shape", "adev_site"], "sample_depth3": 1500, "exhaustive": True,
+              "required_classes": ["C14.seed_none", "C14.seed_outer", "C14.depth_2", "C14.outcome_lowering_error"]},
+    exhaustive=True,
+)
+
+reg(
+    "C08",
+    "Part 1/2: a case is (mapped function from a statement grammar: deterministic ops, normal.logpdf sites, normal.sample sites "
+    "with and without sample_shape, inner modular_vmap, lax.scan, lax.cond; 1-3 arguments with generated per-lane shapes of "
+    "differing rank; in_axes per argument in {0, 1, -1, None} given as tuple / dict pytree / single int; axis_size given or "
+    "inferred; batch size mostly different from every lane dimension, sometimes equal). Oracle: apply f to every slice and "
+    "stack, jax.vmap differential, per-lane PIT. Part 3: a generated model-IR program vectorized with Vmap/repeat at top "
+    "level - lane i of the trace is scored by the reference on lane i's arguments. Non-trivial: in_axes not all 0, or nested "
+    "modular_vmap, or rank-mismatched parameters, or a sample_shape site (all Part-3 cases). Distinct = hash of the case.",
+    quick={"shards": 16, "timeout_s": 1500, "n_cases": 14, "n_vmapgf": 3, "n1": 1500,
+           "required_classes": ["C08.axis_other", "C08.axis_none", "C08.axis_0", "C08.feat_sample", "C08.feat_sample_shape", "C08.feat_logpdf",
+                                "C08.feat_inner_vmap", "C08.feat_scan", "C08.feat_cond", "C08.rank_mismatched_params", "C08.packing_dict_last",
+                                "C08.axis_size_inferred", "C08.B_equals_a_lane_dim", "C08.vmap_combinator", "C08.vmap_combinator_axis_none"]},
+    thorough={"shards": 16, "timeout_s": 4 * 3600, "n_cases": 250, "n_vmapgf": 40, "n1": 8000,
+              "required_classes": ["C08.axis_other", "C08.feat_sample_shape", "C08.rank_mismatched_params", "C08.vmap_combinator"]},
+)
+
+reg(
+    "C09",
+    "Three case kinds. (ir) a model-IR program with observed addresses, a kernel (mh / mala / hmc), a selection of free leaves "
+    "(for mala/hmc: unbounded continuous ones, incl. array-valued and inside Vmap/Scan/Cond sub-calls), step size and leapfrog "
+    "count: the kernel's internal randomness is scripted, the proposal and the acceptance threshold are compared with the "
+    "float64 reference MH rule. (mixture) the mixture-indicator family z -> Cond(observed branches) with generated parameters: "
+    "scripted threshold + full transition matrix. (stationary) conjugate normal targets in 1-3 dimensions: one seeded step "
+    "from exact posterior samples, KS + a detailed-balance statistic. Non-trivial: every case with a non-empty selection. "
+    "Distinct = hash of the case.",
+    quick={"shards": 16, "timeout_s": 1500, "n_ir": 7, "n_fam": 3, "n1": 4000,
+           "required_classes": ["C09.ir_mh", "C09.ir_mala", "C09.ir_hmc", "C09.selected_array_valued", "C09.selection_inside_subcall",
+                                "C09.threshold_checked", "C09.mixture_indicator", "C09.stationary_mh", "C09.stationary_mala", "C09.stationary_hmc", "C09.stationary_d2"]},
+    thorough={"shards": 16, "timeout_s": 4 * 3600, "n_ir": 90, "n_fam": 40, "n1": 20000,
+              "required_classes": ["C09.ir_mh", "C09.ir_mala", "C09.ir_hmc", "C09.mixture_indicator", "C09.stationary_hmc"]},
+)
 NOT_CLAIMED = {}
